@@ -342,7 +342,7 @@ def c19_class_adapt_cplx(ctx, case):
     _class_body(ctx, case)
 
 
-@sub("C19.pre", strategy=mt_case(class_level=True), quick=500, thorough=6000,
+@sub("C19.pre", strategy=mt_case(class_level=True), quick=500, thorough=6000, shards_quick=4,
      doc="precomputed tapers: pmtm(x, e=, v=) and MultiTapering(x, e=, v=) equal the results with NW/k (all methods)")
 def c19_pre(ctx, case):
     x = gen.realise(case["x"])
@@ -353,7 +353,17 @@ def c19_pre(ctx, case):
         return
     meth = case["method"]
     tapers, lam = spectrum.dpss(N, NW, case["k"])
+    t_keep, l_keep = np.array(tapers, copy=True), np.array(lam, copy=True)
     a = spectrum.pmtm(x, NW=NW, k=case["k"], NFFT=nfft, method=meth)
+    # tapers prepared up front are used after other tapers were computed in the same process (another bandwidth, another
+    # record length): what the caller holds must still be what dpss returned
+    NWo = 2.0 if float(NW) != 2.0 else 3.0
+    if 2 * NWo < N - 1:
+        spectrum.dpss(N, NWo)
+    if N > 24:
+        spectrum.dpss(N - 8, 2.0, 3)
+    ctx.check(np.array_equal(np.asarray(tapers), t_keep) and np.array_equal(np.asarray(lam), l_keep),
+              "tapers / eigenvalues returned by dpss changed when dpss was called again with other arguments", sig={"clause": "tapers-owned"})
     b = spectrum.pmtm(x, e=lam, v=tapers, NFFT=nfft, method=meth)
     for name, u, v in zip(("Sk", "weights", "eigenvalues"), a, b):
         u = np.asarray(u)
